@@ -493,7 +493,64 @@ def standin_unrolled(tier, seed):
     return r
 standin_unrolled.prop = "C12"
 
-STANDINS = [standin_subcircuits, standin_key_algebra, standin_params_and_loops, standin_unrolled]
+def standin_tagged_twins(tier, seed):
+    """a tag changes nothing about keys: a sub-circuit whose body holds TAGGED key readers / writers (a tagged controlled operation, a tagged nested
+    sub-circuit reading an outer key, a tagged measurement) under every kind of scoping (repetition ids, key path, nesting, key map) has the same
+    measurement and control keys, the same unrolled circuit up to the tags, and the same record distribution as its twin without the tags"""
+    import cirq
+
+    q = cirq.LineQubit.range(3)
+    cases, fails = 0, []
+
+    def bodies(tag):
+        t = (lambda o: o.with_tags("t")) if tag else (lambda o: o)
+        inner_reader = cirq.CircuitOperation(cirq.FrozenCircuit(cirq.X(q[2]).with_classical_controls("a")))
+        return {
+            "tagged controlled operation": cirq.FrozenCircuit(cirq.H(q[0]), cirq.measure(q[0], key="a"), t(cirq.X(q[1]).with_classical_controls("a")), cirq.measure(q[1], key="b")),
+            "tagged nested sub-circuit reading the enclosing key": cirq.FrozenCircuit(cirq.H(q[0]), cirq.measure(q[0], key="a"), t(inner_reader), cirq.measure(q[2], key="b")),
+            "tagged measurement feeding a control": cirq.FrozenCircuit(cirq.H(q[0]), t(cirq.measure(q[0], key="a")), cirq.X(q[1]).with_classical_controls("a"), cirq.measure(q[1], key="b")),
+            "tagged sympy-controlled operation": cirq.FrozenCircuit(cirq.H(q[0]), cirq.measure(q[0], q[2], key="a"), t(cirq.X(q[1]).with_classical_controls(cirq.SympyCondition(__import__("sympy").Symbol("a") > 1))), cirq.measure(q[1], key="b")),
+        }
+
+    wrappers = {
+        "repeated twice with repetition ids": lambda fc: cirq.CircuitOperation(fc, repetitions=2, use_repetition_ids=True),
+        "repeated twice without ids": lambda fc: cirq.CircuitOperation(fc, repetitions=2, use_repetition_ids=False),
+        "under a key path": lambda fc: cirq.CircuitOperation(fc).with_key_path(("p",)),
+        "nested in a repeated outer sub-circuit": lambda fc: cirq.CircuitOperation(cirq.FrozenCircuit(cirq.CircuitOperation(fc, repetitions=2, use_repetition_ids=True)), repetitions=2, use_repetition_ids=True),
+        "with the key renamed": lambda fc: cirq.CircuitOperation(fc, measurement_key_map={"a": "z"}),
+    }
+
+    def untag(circ):
+        return cirq.Circuit(cirq.Moment(op.untagged for op in m) for m in circ)
+
+    tagged, plain = bodies(True), bodies(False)
+    for (bname, fc_t), (wname, wrap) in itertools.product(tagged.items(), wrappers.items()):
+        cases += 1
+        op_t, op_p = wrap(fc_t), wrap(plain[bname])
+        args = dict(body=bname, scoping=wname)
+        try:
+            if cirq.measurement_key_objs(op_t) != cirq.measurement_key_objs(op_p) or cirq.control_keys(op_t) != cirq.control_keys(op_p):
+                fails.append(dict(args=args, failed="tagged-twin-keys", clause=f"keys differ from the untagged twin: measures {sorted(map(str, cirq.measurement_key_objs(op_t)))} vs {sorted(map(str, cirq.measurement_key_objs(op_p)))}, reads {sorted(map(str, cirq.control_keys(op_t)))} vs {sorted(map(str, cirq.control_keys(op_p)))}"))
+                continue
+            full = lambda o_: cirq.Circuit(cirq.decompose(cirq.Circuit(o_), keep=lambda o: not isinstance(o.untagged, cirq.CircuitOperation), on_stuck_raise=None))
+            flat_t, flat_p = full(op_t), full(op_p)     # (mapped_circuit(deep=True) leaves a TAGGED nested sub-circuit in place; decomposition unrolls it)
+            if untag(flat_t) != untag(flat_p):
+                fails.append(dict(args=dict(args, unrolled=repr(flat_t)[:900]), failed="tagged-twin-unrolled", clause="the unrolled sub-circuit differs from the untagged twin's beyond the tags"))
+                continue
+            want = refsim.ref_distribution(cirq.Circuit(flat_p), list(q))
+            got = refsim.ref_distribution(untag(cirq.Circuit(cirq.decompose(cirq.Circuit(op_t), keep=lambda o: not isinstance(o.untagged, cirq.CircuitOperation), on_stuck_raise=None))), list(q))
+            if not refsim.dist_close(got, want, atol=1e-7):
+                fails.append(dict(args=args, failed="tagged-twin-records", clause="the record distribution differs from the untagged twin's"))
+        except refsim.ControlBeforeMeasurement as ex:
+            fails.append(dict(args=args, failed="tagged-twin-records", clause=f"the decomposed tagged form is not a valid program: {ex}"))
+        except Exception as ex:
+            fails.append(dict(args=args, failed="tagged-twin-raised", clause=f"{ex!r}"))
+    return dict(function="cirq-core/cirq/ops/raw_types.py:TaggedOperation[key protocols] + circuits/circuit_operation.py", case="tagged-twins", bound="4 bodies with a tagged key reader / writer x 5 kinds of scoping, against the untagged twin",
+                cases=cases, distinct=cases, failures=len(fails), exhaustive=True, _fails=fails[:4])
+standin_tagged_twins.prop = "C12"
+
+
+STANDINS = [standin_subcircuits, standin_key_algebra, standin_params_and_loops, standin_unrolled, standin_tagged_twins]
 
 
 def _replay_scoping(ob, seed):
